@@ -468,10 +468,31 @@ func (a *astCtx) volumeSwitches() (allowed []string, bad [][2]string) {
 
 // ---------------------------------------------------------------- SSA helpers
 
+// originMemo: origin is a function of the value alone; a value met again while its own origin is being computed (a loop
+// through phi nodes) contributes nothing new and is cut
+var originMemo = map[ssa.Value]string{}
+
 func origin(v ssa.Value, depth int) string {
 	if depth > 12 {
 		return "unknown:deep"
 	}
+	if depth > 0 {
+		if o, ok := originMemo[v]; ok {
+			return o
+		}
+		originMemo[v] = "cycle"
+		o := originOf(v, depth)
+		if strings.Contains(o, "unknown:deep") {
+			delete(originMemo, v) // cut by the depth limit: depends on where the walk started
+		} else {
+			originMemo[v] = o
+		}
+		return o
+	}
+	return originOf(v, depth)
+}
+
+func originOf(v ssa.Value, depth int) string {
 	switch x := v.(type) {
 	case *ssa.Alloc:
 		return "fresh:alloc"
@@ -515,6 +536,8 @@ func origin(v ssa.Value, depth int) string {
 	case *ssa.MakeInterface:
 		return origin(x.X, depth+1)
 	case *ssa.ChangeType:
+		return origin(x.X, depth+1)
+	case *ssa.Slice:
 		return origin(x.X, depth+1)
 	case *ssa.Extract:
 		return "extract(" + origin(x.Tuple, depth+1) + ")"
@@ -615,6 +638,17 @@ func podWrites(f *ssa.Function) []string {
 						out = append(out, fmt.Sprintf("%s: map update through %s", fn.Name(), origin(x.Map, 0)))
 					}
 				case *ssa.Call:
+					// append(s, ...) with s a slice held by the pod writes into s's backing array whenever s has spare capacity
+					// (the caller's memory, possibly shared with other objects) — unless s's capacity was clipped (s[a:b:c])
+					if bi, ok := x.Call.Value.(*ssa.Builtin); ok && bi.Name() == "append" && len(x.Call.Args) > 0 {
+						clipped := false
+						if sl, ok := x.Call.Args[0].(*ssa.Slice); ok && sl.Max != nil {
+							clipped = true
+						}
+						if !clipped && fromPod(x.Call.Args[0]) {
+							out = append(out, fmt.Sprintf("%s: append to a slice reached from the pod (%s)", fn.Name(), origin(x.Call.Args[0], 0)))
+						}
+					}
 					if callee := x.Call.StaticCallee(); callee != nil && callee.Pkg != nil && callee.Pkg.Pkg.Path() == "sort" {
 						for _, a := range x.Call.Args {
 							if fromPod(a) {
